@@ -36,7 +36,11 @@ REPO_SRCS := $(wildcard $(REPO)/src/core/*.c $(REPO)/src/thrift/*.c $(REPO)/src/
 REPO_OBJS := $(patsubst $(REPO)/%.c,$(B)/repo/%.o,$(REPO_SRCS))
 
 EXTRA_SRCS ?=
-MC_SRCS  := mc/mc.c mc/gomp_seq.c $(EXTRA_SRCS)
+ifeq ($(V),mcs)
+  MC_SRCS := mc/mc.c mc/sched.c $(EXTRA_SRCS)
+else
+  MC_SRCS := mc/mc.c mc/gomp_seq.c $(EXTRA_SRCS)
+endif
 REF_SRCS := $(wildcard ref/*.c)
 # engines and references are never sanitised with tsan; under mcs they use plain flags
 ifeq ($(V),mcs)
@@ -52,7 +56,12 @@ LIBS := /root/miniconda/lib/libzstd.a /usr/lib/x86_64-linux-gnu/libz.a -lm -lpth
 # WRAP=1: the harness links copies of the library objects (and of zlib/zstd) whose
 # allocator references are renamed to mcf_* (mc/fault.c), see mc/wrap.syms
 WRAP ?=
-ifeq ($(WRAP),1)
+ifeq ($(V),mcs)
+  # C07: library objects whose stdio / allocator / memcpy / libzstd references are routed through mc/sched.c
+  REPO_LINK := $(patsubst $(B)/repo/%.o,$(B)/repos/%.o,$(REPO_OBJS))
+  WLIBS :=
+  LFLAGS := -no-pie
+else ifeq ($(WRAP),1)
   REPO_LINK := $(patsubst $(B)/repo/%.o,$(B)/repow/%.o,$(REPO_OBJS))
   LIBS := $(B)/libzstd_w.a $(B)/libz_w.a -lm -lpthread
   WLIBS := $(B)/libzstd_w.a $(B)/libz_w.a
@@ -89,6 +98,9 @@ $(B)/verif/harness/%.o: harness/%.c
 HSRCS ?=
 HOBJS := $(patsubst %.c,$(B)/verif/%.o,$(HSRCS))
 harness: $(B)/bin/$(H)
+$(B)/repos/%.o: $(B)/repo/%.o mc/sched.syms
+	@mkdir -p $(dir $@)
+	objcopy --redefine-syms=mc/sched.syms $< $@
 $(B)/repow/%.o: $(B)/repo/%.o mc/wrap.syms
 	@mkdir -p $(dir $@)
 	objcopy --redefine-syms=mc/wrap.syms $< $@
